@@ -1,6 +1,7 @@
 package main
 
 import (
+	"go/ast"
 	"regexp"
 	"strconv"
 	"fmt"
@@ -369,6 +370,23 @@ func (f *FnVC) block(b *ssa.BasicBlock) {
 			envI := f.loopEnv(l2, f.st, subst)
 			envI.old = l2.headState
 			envI.oldLazy = f.loopEnv(l2, l2.headState, nil).lazy // old(x): x at the beginning of this iteration
+			// variables declared inside the body stand for their value at the end of this iteration
+			if n := len(b.Instrs); n > 0 {
+				headLazy, bodyLazy := envI.lazy, f.pointEnv(b.Instrs[n-1]).lazy
+				li := l2
+				envI.lazy = func(name string, st *State) (TV, bool) {
+					_, isHead := li.names[name]
+					_, isHeadAddr := li.addrNames[name]
+					if !isHead && !isHeadAddr {
+						if _, isParam := f.paramTV[name]; !isParam {
+							if tv, ok := bodyLazy(name, st); ok {
+								return tv, true
+							}
+						}
+					}
+					return headLazy(name, st)
+				}
+			}
 			f.oblige("iteration", fmt.Sprintf("loop %d iteration ensures %s", l2.ord, ie.Text), f.trBool(envI, ie.E), s.Instrs[0].Pos())
 		}
 		f.reach[b.Index] = saved
@@ -1596,6 +1614,37 @@ func (f *FnVC) allocTouchedIn(a *ssa.Alloc, li *loopInfo) bool {
 	return visit(a, 0)
 }
 
+// dbgValue: the value a DebugRef gives its variable. go/ssa records `m := T{...}` (composite literal of map/slice type)
+// as "m is nil" followed by the literal's own DebugRef: take the literal.
+func dbgValue(x *ssa.DebugRef) ssa.Value {
+	c, ok := x.X.(*ssa.Const)
+	if !ok || c.Value != nil || x.IsAddr {
+		return x.X
+	}
+	obj := x.Object()
+	if obj == nil || x.Expr == nil || obj.Pos() != x.Expr.Pos() {
+		return x.X
+	}
+	b := x.Block()
+	seen := false
+	for _, in := range b.Instrs {
+		if in == ssa.Instruction(x) {
+			seen = true
+			continue
+		}
+		if !seen {
+			continue
+		}
+		if d, ok := in.(*ssa.DebugRef); ok {
+			if _, isLit := d.Expr.(*ast.CompositeLit); isLit && !d.IsAddr && types.Identical(d.X.Type(), obj.Type()) {
+				return d.X
+			}
+			return x.X
+		}
+	}
+	return x.X
+}
+
 // applyLemma: `at "text" apply E` where E mentions ghost lemmas (Go functions in a file guarded by the build tag,
 // never part of the product, each with a contract of its own proved like any other function - a recursive one is a
 // proof by induction). A call lemma(args) inside E denotes (requires ==> ensures) for those arguments; E is ASSUMED
@@ -1721,7 +1770,7 @@ func (f *FnVC) pointEnv(at ssa.Instruction) *Env {
 					}
 				} else if _, ok := names[n]; !ok {
 					if _, ok2 := addrs[n]; !ok2 {
-						names[n] = x.X
+						names[n] = dbgValue(x)
 					}
 				}
 			case *ssa.Phi:
